@@ -30,7 +30,7 @@ Definition exits (t : st) (i : nat) (a : act) : bool :=
   end.
 Definition proj (t : st) (l : label) : list Accept.label :=
   match l with
-  | Start _ _ _ | Arrive _ => []
+  | Start _ _ _ _ | Arrive _ | AcceptFail | FdExhaust | FdRestore | SrvClose => []
   | C16_Model.Accept i => [Accept.Accept i]
   | On i a => if exits t i a then [Accept.Exit i] else []
   end.
@@ -94,12 +94,13 @@ Qed.
 Theorem step_refines t l t' : GInv 0 t -> step t l = Some t' -> not_start l = true ->
   Accept.run (abs t) (proj t l) = Some (abs t').
 Proof.
-  intros G H Hn. destruct l as [i trp reads|i|i|i a]; [discriminate| | |].
+  intros G H Hn. destruct l as [i trp reads h0|i|i| | | | |i a]; [discriminate| | | | | | |].
   - (* a connection starts waiting: invisible *)
     cbn [proj]. cbn [step] in H. destruct (Nat.eqb i (length (ss t) + pend t)); [|discriminate]. inversion H; subst t'. reflexivity.
   - (* the accept loop takes a connection *)
     cbn [proj]. unfold Accept.run. cbn [fold_left]. cbn [step] in H.
-    destruct (Nat.eqb i (length (ss t)) && negb (Nat.eqb (pend t) 0)) eqn:Ei; [|discriminate]. apply andb_prop in Ei as [Ei _]. apply Nat.eqb_eq in Ei.
+    destruct (Nat.eqb i (length (ss t)) && negb (Nat.eqb (pend t) 0) && aloop (al t) && negb (fdlim (al t))) eqn:Ei; [|discriminate].
+    apply andb_prop in Ei as [Ei _]. apply andb_prop in Ei as [Ei _]. apply andb_prop in Ei as [Ei _]. apply Nat.eqb_eq in Ei.
     unfold Accept.step. cbn [abs Accept.live Accept.closed_on_accept Accept.maxc Accept.count].
     rewrite (mem_false_range i (ids is_live 0 (ss t))) by (intros y Hy; apply ids_range in Hy; lia).
     rewrite (mem_false_range i (ids is_rej 0 (ss t))) by (intros y Hy; apply ids_range in Hy; lia).
@@ -110,6 +111,11 @@ Proof.
       rewrite !ids_app. cbn. subst i. reflexivity.
     + apply Z.leb_gt in E. replace (Nat.leb (Z.to_nat (maxc t)) (Z.to_nat (cnt t))) with false by (symmetry; apply Nat.leb_gt; lia).
       rewrite !ids_app. cbn. subst i. replace (Z.to_nat (cnt t + 1)) with (S (Z.to_nat (cnt t))) by lia. reflexivity.
+  - (* a temporary error of Accept, the environment, Server.Close: invisible to the count machine *)
+    cbn [proj]. cbn [step] in H. destruct (negb (Nat.eqb (pend t) 0) && aloop (al t) && fdlim (al t)); [|discriminate]. inversion H; subst t'. reflexivity.
+  - cbn [proj]. cbn [step] in H. destruct (fdlim (al t)); [discriminate|]. inversion H; subst t'. reflexivity.
+  - cbn [proj]. cbn [step] in H. destruct (fdlim (al t)); [|discriminate]. inversion H; subst t'. reflexivity.
+  - cbn [proj]. cbn [step] in H. destruct (Nat.eqb (pend t) 0); [|discriminate]. inversion H; subst t'. reflexivity.
   - (* a step of session i *)
     cbn [proj]. unfold exits. cbn [step] in H.
     destruct (nth_error (ss t) i) as [s|] eqn:En; [|discriminate]. destruct (started s) eqn:St; [|discriminate].
@@ -159,10 +165,10 @@ Proof.
 Qed.
 
 (* the bound of the prototype, obtained through the refinement *)
-Corollary count_bounded_via_accept m ls t : 0 <= m -> run (init m 0) ls = Some t -> forallb not_start ls = true ->
+Corollary count_bounded_via_accept m r ls t : 0 <= m -> run (init m 0 r) ls = Some t -> forallb not_start ls = true ->
   (Z.to_nat (cnt t) <= Z.to_nat m)%nat /\ Z.to_nat (cnt t) = length (ids is_live 0 (ss t)).
 Proof.
-  intros Hm H Hn. pose proof (run_refines ls _ _ (init_ginv m 0) H Hn) as R.
-  change (abs (init m 0)) with (Accept.init (Z.to_nat m)) in R.
+  intros Hm H Hn. pose proof (run_refines ls _ _ (init_ginv m 0 r) H Hn) as R.
+  change (abs (init m 0 r)) with (Accept.init (Z.to_nat m)) in R.
   destruct (Accept.count_bounded _ _ _ R) as [A B]. exact (conj A B).
 Qed.
